@@ -837,6 +837,48 @@ static void c16_sequence (VhRng *r, long caseidx, int steps)
   while (ncodes) orc_code_free (codes[--ncodes]);
 }
 
+/* the parser owns objects too (programs, error records, the init-function name, the log): .orc text of 1..3 programs with directive lines
+ * repeated, truncated or misplaced, through both entry points; everything it returns is read and released exactly once (ASan/LSan judge) */
+static void c16_parse (VhRng *r, long caseidx)
+{
+  static const char *noise[] = { ".init c16_init\n", ".init\n", ".init a b\n", ".init other_init\n", ".function\n", ".backup\n", ".backup bk\n", ".source 2\n", ".flags 2d\n", ".flags\n",
+    ".n 8\n", ".n\n", ".m 2\n", ".dest 3 d9\n", "addw d1, s1\n", ".temp 2\n", ".const 4 c9 1\n", ".param 4\n", ".function c16dup\n", "\n", "# c\n", ".name\n", ".accumulator 4 a9 int\n", "x4 \n" };
+  VhBuf b = { 0 }; int np = 1 + (int) vh_randn (r, 3), k, i, nprog = 0, nerr = 0; OrcProgram **progs = NULL; OrcParseError **errs = NULL;
+  for (k = 0; k < np; k++) {
+    ProgSpec ps; char nm[32]; VhBuf t = { 0 }; char *q, *nl; int pos = 0;
+    snprintf (nm, sizeof nm, "c16p%ld_%d", caseidx, k); gen_init (&ps, nm);
+    while (vh_chance (r, 1, 3)) vh_buf_printf (&b, "%s", noise[vh_randn (r, sizeof noise / sizeof noise[0])]);
+    if (!gen_random (&ps, r, GP_INT | GP_ACC, 1 + (int) vh_randn (r, 5))) continue;
+    gen_print_orc (&ps, &t, NULL, NULL);
+    /* copy line by line, now and then slipping a noise line in between */
+    for (q = t.p; q && *q; q = nl ? nl + 1 : NULL, pos++) {
+      nl = strchr (q, '\n');
+      vh_buf_printf (&b, "%.*s\n", nl ? (int) (nl - q) : (int) strlen (q), q);
+      if (vh_chance (r, 1, 6)) vh_buf_printf (&b, "%s", noise[vh_randn (r, sizeof noise / sizeof noise[0])]);
+    }
+    free (t.p);
+  }
+  if (!b.p) return;
+  if (vh_chance (r, 1, 2)) {
+    orc_parse_code (b.p, &progs, &nprog, &errs, &nerr);
+    for (i = 0; i < nerr; i++) if (errs[i] && errs[i]->text) vh_count ("c16.parse_error_bytes_read", strlen (errs[i]->text));
+    if (errs) orc_parse_error_freev (errs);
+  } else {
+    static char marker[] = ""; char *log = marker;
+    nprog = orc_parse_full (b.p, &progs, &log);
+    if (log && log != marker) { vh_count ("c16.parse_log_bytes_read", strlen (log)); free (log); }
+  }
+  if (nprog > 0 && progs[0]) { const char *in = orc_parse_get_init_function (progs[0]); if (in) vh_count ("c16.parse_init_name_bytes_read", strlen (in)); }
+  for (i = 0; i < nprog; i++) if (progs[i]) {
+    if (progs[i]->name) vh_count ("c16.parse_name_bytes_read", strlen (progs[i]->name));
+    if (vh_chance (r, 1, 3) && progs[i]->n_insns <= ORC_N_INSNS) orc_program_compile_for_target (progs[i], orc_target_get_by_name ("sse"));
+    orc_program_free (progs[i]);
+  }
+  free (progs);
+  vh_count ("c16.parsed_texts", 1); vh_count ("c16.parsed_programs", (uint64_t) (nprog > 0 ? nprog : 0));
+  free (b.p);
+}
+
 static void mode_c16 (void)
 {
   long c, total = vh_args.thorough ? 60000 : 8000;
@@ -848,6 +890,7 @@ static void mode_c16 (void)
     snprintf (desc, sizeof desc, "c16 sequence %ld", c); vh_progress (c, desc);
     c16_sequence (&r, c, 4 + (int) vh_randn (&r, 30));
     vh_count ("c16.sequences", 1);
+    c16_parse (&r, c);
     if ((c & 255) == 0) vh_flush ();
   }
   /* growth: the same loop for K and 4K iterations */
